@@ -132,3 +132,940 @@ Proof.
       destruct (dir s (NTemp w)); simpl; auto. destruct early; simpl; auto.
     + auto.
 Qed.
+
+(* ------------------------------------------------------------------------------------------ *)
+(* the recogniser, unfolded                                                                    *)
+
+Definition opG : tf_op * bool := (TGather, true).
+Definition tail4 : list (tf_op * bool) :=
+  [(TEncodeAllToTmp, true); (TCloseTmp, true); (TChmodTmp new_mode, true); (TRenameTmpToTarget, true)].
+Definition mid_ok (ops : list (tf_op * bool)) : Prop := tail_safe (skip_gathers ops) = true.
+
+Lemma tail_safe_inv : forall ops, tail_safe ops = true -> ops = tail4.
+Proof.
+  intros ops H. unfold tail_safe in H.
+  repeat match type of H with
+         | context [match ?x with _ => _ end] => destruct x; try discriminate
+         end.
+  apply Z.eqb_eq in H. subst. reflexivity.
+Qed.
+
+Lemma mid_ok_cases : forall ops, mid_ok ops -> (exists r, ops = opG :: r /\ mid_ok r) \/ ops = tail4.
+Proof.
+  intros [|[op e] r] H; unfold mid_ok in *.
+  - discriminate.
+  - destruct op, e; simpl in H; try (right; now apply tail_safe_inv).
+    left. exists r. split; auto.
+Qed.
+
+Lemma shape_core_cases : forall ops, shape_core ops = true ->
+  (exists r, ops = opG :: r /\ shape_core r = true) \/
+  (exists b r, ops = (TCreateTempInTargetDir, true) :: (TDeferRemoveTmp, b) :: r /\ mid_ok r).
+Proof.
+  intros [|[op e] r] H; unfold shape_core in *; simpl in H; try discriminate.
+  destruct op, e; simpl in H; try discriminate.
+  - destruct r as [|[op2 e2] r2]; try discriminate. destruct op2; try discriminate.
+    right. exists e2, r2. split; auto.
+  - left. exists r. split; auto.
+Qed.
+
+Lemma shape_safe_core : forall ops, shape_safe ops = true -> shape_core ops = true.
+Proof. unfold shape_safe. intros ops H. now apply andb_true_iff in H. Qed.
+
+Lemma w_fail_early : forall wr f rest,
+  w_fail wr f true rest = w_abort wr (match f with FPanic => RPanic | _ => RErr end).
+Proof. intros. destruct f; reflexivity. Qed.
+
+Lemma dir_fs_write : forall s i t, dir (fs_write s i t) = dir s.
+Proof. intros. unfold fs_write. destruct (i_data (inodes s i)); reflexivity. Qed.
+Lemma next_fs_write : forall s i t, next_ino (fs_write s i t) = next_ino s.
+Proof. intros. unfold fs_write. destruct (i_data (inodes s i)); reflexivity. Qed.
+
+(* ------------------------------------------------------------------------------------------ *)
+(* invariant                                                                                   *)
+
+Section Invariant.
+Variable nf : nat -> nat.     (* number of families gathered by call w *)
+Variable old : option Z.      (* the target before: absent, or a complete file with this mode *)
+
+Definition done_ok (wr : writer) : Prop := w_ops wr = [] /\ w_res wr = ROk.
+
+(* where a call is, and what its temp file looks like there *)
+Inductive winv (s : fs) (w : nat) (wr : writer) : Prop :=
+| WI0 : shape_core (w_ops wr) = true -> w_fd wr = None -> w_defer wr = false -> w_res wr = ROk -> w_enc wr = 0 ->
+        dir s (NTemp w) = None -> winv s w wr
+| WI1 : forall i b r, w_ops wr = (TDeferRemoveTmp, b) :: r -> mid_ok r -> w_fd wr = Some i -> dir s (NTemp w) = Some i ->
+        i_data (inodes s i) = DNew w 0 false -> w_defer wr = false -> w_res wr = ROk -> w_enc wr = 0 -> winv s w wr
+| WI2 : forall i, mid_ok (w_ops wr) -> w_fd wr = Some i -> dir s (NTemp w) = Some i ->
+        i_data (inodes s i) = DNew w (w_enc wr) false -> w_enc wr <= nf w -> w_defer wr = true -> w_res wr = ROk -> winv s w wr
+| WI3 : forall i, w_ops wr = tl tail4 -> w_fd wr = Some i -> dir s (NTemp w) = Some i ->
+        i_data (inodes s i) = DNew w (nf w) false -> w_defer wr = true -> w_res wr = ROk -> winv s w wr
+| WI4 : forall i, w_ops wr = tl (tl tail4) -> w_fd wr = None -> dir s (NTemp w) = Some i ->
+        i_data (inodes s i) = DNew w (nf w) false -> w_defer wr = true -> w_res wr = ROk -> winv s w wr
+| WI5 : forall i, w_ops wr = tl (tl (tl tail4)) -> w_fd wr = None -> dir s (NTemp w) = Some i ->
+        inodes s i = mk_inode (DNew w (nf w) false) new_mode -> w_defer wr = true -> w_res wr = ROk -> winv s w wr
+| WI6 : w_ops wr = [] -> w_res wr = ROk -> w_fd wr = None -> dir s (NTemp w) = None -> winv s w wr
+| WIF : w_ops wr = [] -> w_res wr <> ROk -> (w_defer wr = false -> dir s (NTemp w) = None) -> winv s w wr.
+
+Lemma winv_frame : forall s s' w wr, winv s w wr ->
+  dir s' (NTemp w) = dir s (NTemp w) ->
+  (forall i, dir s (NTemp w) = Some i -> inodes s' i = inodes s i) ->
+  winv s' w wr.
+Proof.
+  intros s s' w wr H Hd Hi.
+  destruct H;
+    [ eapply WI0 | eapply WI1 | eapply WI2 | eapply WI3 | eapply WI4 | eapply WI5 | eapply WI6 | eapply WIF ];
+    eauto; try (rewrite Hd; eauto; fail); try (rewrite Hi; eauto; fail).
+Qed.
+
+Definition target_inv (s : sys) : Prop :=
+  (dir (s_fs s) NTarget = dir (init_fs old) NTarget /\
+   (forall i, dir (s_fs s) NTarget = Some i -> i < next_ino (s_fs s) /\ inodes (s_fs s) i = inodes (init_fs old) i) /\
+   (forall w, ~ done_ok (s_ws s w)))
+  \/ (exists w i, dir (s_fs s) NTarget = Some i /\ i < next_ino (s_fs s) /\
+                  inodes (s_fs s) i = mk_inode (DNew w (nf w) false) new_mode /\ done_ok (s_ws s w)).
+
+Record Inv (s : sys) : Prop := {
+  inv_fd : forall w i, w_fd (s_ws s w) = Some i ->
+             i < next_ino (s_fs s) /\ tag_of (s_fs s) i = Some w /\ dir (s_fs s) NTarget <> Some i;
+  inv_tmp : forall w i, dir (s_fs s) (NTemp w) = Some i ->
+             i < next_ino (s_fs s) /\ tag_of (s_fs s) i = Some w /\ dir (s_fs s) NTarget <> Some i;
+  inv_w : forall w, w_status (s_ws s w) <> Crashed -> winv (s_fs s) w (s_ws s w);
+  inv_ret : forall w, w_status (s_ws s w) = Returned -> w_ops (s_ws s w) = [] /\ w_defer (s_ws s w) = false;
+  inv_target : target_inv s }.
+
+Lemma target_lt : forall s i, target_inv s -> dir (s_fs s) NTarget = Some i -> i < next_ino (s_fs s).
+Proof.
+  intros s i [[_ [H _]]|[w [j [H1 [H2 _]]]]] Hi.
+  - now apply H.
+  - congruence.
+Qed.
+
+Lemma upd_same : forall ws w wr, upd_w ws w wr w = wr.
+Proof. intros. unfold upd_w. now rewrite Nat.eqb_refl. Qed.
+Lemma upd_other : forall ws w wr w', w' <> w -> upd_w ws w wr w' = ws w'.
+Proof. intros. unfold upd_w. destruct (Nat.eqb_spec w' w); [contradiction|reflexivity]. Qed.
+
+(* one writer moves: what has to be shown about it, everything else follows from the footprint *)
+Lemma inv_update : forall s w wr' fs',
+  Inv s ->
+  fsfp w (w_fd (s_ws s w)) (s_fs s) fs' ->
+  (forall i, w_fd wr' = Some i -> w_fd (s_ws s w) = Some i \/ next_ino (s_fs s) <= i < next_ino fs') ->
+  (w_status wr' <> Crashed -> winv fs' w wr') ->
+  (w_status wr' = Returned -> w_ops wr' = [] /\ w_defer wr' = false) ->
+  ((dir fs' NTarget = dir (s_fs s) NTarget /\ (done_ok wr' <-> done_ok (s_ws s w)))
+   \/ (exists i, dir (s_fs s) (NTemp w) = Some i /\ dir fs' NTarget = Some i /\ dir fs' (NTemp w) = None /\
+                 inodes fs' i = mk_inode (DNew w (nf w) false) new_mode /\ done_ok wr' /\ w_fd wr' = None)) ->
+  Inv (mk_sys fs' (upd_w (s_ws s) w wr')).
+Proof.
+  intros s w wr' fs' I FP Hfd Hw Hret Ht.
+  destruct I as [Ifd Itmp Iw Iret Itg]. destruct FP as [Fnext Ftag Fino Fnew Fdir Ftmp Ftarget].
+  assert (Tlt := target_lt s).
+  (* the target inode is not reachable through w's descriptor or temp name, hence unchanged *)
+  assert (Tsame : forall i, dir (s_fs s) NTarget = Some i -> inodes fs' i = inodes (s_fs s) i).
+  { intros i Hi. apply Fino.
+    - now apply Tlt.
+    - intro E. apply Ifd in E. tauto.
+    - intro E. apply Itmp in E. tauto. }
+  (* after a rename by w, no other reference points to the renamed inode *)
+  assert (Tother : forall w' j i, w' <> w -> tag_of (s_fs s) j = Some w' -> dir (s_fs s) (NTemp w) = Some i -> i <> j).
+  { intros w' j i Hn Hj Hi E. subst j. apply Itmp in Hi. destruct Hi as [_ [Hi _]]. congruence. }
+  constructor; simpl.
+  - (* descriptors *)
+    intros w' i. destruct (Nat.eq_dec w' w) as [->|Hn].
+    + rewrite upd_same. intro Hi. destruct (Hfd i Hi) as [Ho|Hfresh].
+      * destruct (Ifd _ _ Ho) as [A [B C]]. split; [lia|]. split; [rewrite Ftag; auto|].
+        destruct Ht as [[Hd _]|[i0 [_ [_ [_ [_ [_ Hnone]]]]]]]; [now rewrite Hd|congruence].
+      * split; [lia|]. split; [now apply Fnew|].
+        destruct Ht as [[Hd _]|[i0 [_ [_ [_ [_ [_ Hnone]]]]]]]; [|congruence].
+        rewrite Hd. intro E. apply Tlt in E; auto. lia.
+    + rewrite upd_other by auto. intro Hi. destruct (Ifd _ _ Hi) as [A [B C]].
+      split; [lia|]. split; [rewrite Ftag; auto|].
+      destruct Ht as [[Hd _]|[i0 [H0 [H1 _]]]]; [now rewrite Hd|].
+      rewrite H1. intro E. inversion E. subst i0. eapply (Tother w' i i); eauto.
+  - (* temp names *)
+    intros w' i. destruct (Nat.eq_dec w' w) as [->|Hn].
+    + intro Hi. destruct Ht as [[Hd _]|[i0 [_ [_ [Hnone _]]]]]; [|congruence].
+      destruct (Ftmp i Hi) as [Ho|Hfresh].
+      * destruct (Itmp _ _ Ho) as [A [B C]]. split; [lia|]. split; [rewrite Ftag; auto|]. now rewrite Hd.
+      * split; [lia|]. split; [now apply Fnew|]. rewrite Hd. intro E. apply Tlt in E; auto. lia.
+    + rewrite Fdir by auto. intro Hi. destruct (Itmp _ _ Hi) as [A [B C]].
+      split; [lia|]. split; [rewrite Ftag; auto|].
+      destruct Ht as [[Hd _]|[i0 [H0 [H1 _]]]]; [now rewrite Hd|].
+      rewrite H1. intro E. inversion E. subst i0. eapply (Tother w' i i); eauto.
+  - (* the other writers are where they were *)
+    intros w'. destruct (Nat.eq_dec w' w) as [->|Hn].
+    + rewrite upd_same. auto.
+    + rewrite upd_other by auto. intro Hs. apply winv_frame with (s := s_fs s); auto.
+      intros i Hi. destruct (Itmp _ _ Hi) as [A [B C]]. apply Fino; auto.
+      * intro E. apply Ifd in E. destruct E as [_ [E _]]. congruence.
+      * intro E. apply Itmp in E. destruct E as [_ [E _]]. congruence.
+  - intros w'. destruct (Nat.eq_dec w' w) as [->|Hn].
+    + rewrite upd_same. auto.
+    + rewrite upd_other by auto. auto.
+  - (* target *)
+    unfold target_inv. simpl.
+    destruct Ht as [[Hd Hdone]|[i0 [H0 [H1 [H2 [H3 [H4 H5]]]]]]].
+    + destruct Itg as [[A [B C]]|[w0 [i0 [A [B [C D]]]]]].
+      * left. rewrite Hd. split; auto. split.
+        -- intros i Hi. destruct (B i Hi) as [B1 B2]. split; [lia|]. rewrite Tsame; auto.
+        -- intros w'. destruct (Nat.eq_dec w' w) as [->|Hn].
+           ++ rewrite upd_same. rewrite Hdone. apply C.
+           ++ rewrite upd_other by auto. apply C.
+      * right. exists w0, i0. rewrite Hd. split; auto. split; [lia|]. split; [rewrite Tsame; auto|].
+        destruct (Nat.eq_dec w0 w) as [->|Hn].
+        -- rewrite upd_same. now apply Hdone.
+        -- rewrite upd_other by auto. auto.
+    + right. exists w, i0. split; auto. split.
+      * destruct (Itmp _ _ H0) as [A _]. lia.
+      * split; auto. now rewrite upd_same.
+Qed.
+
+Definition local_ok (s : sys) (w : nat) (wr' : writer) (fs' : fs) : Prop :=
+  (w_status wr' <> Crashed -> winv fs' w wr') /\
+  (w_status wr' = Returned -> w_ops wr' = [] /\ w_defer wr' = false) /\
+  ((dir fs' NTarget = dir (s_fs s) NTarget /\ (done_ok wr' <-> done_ok (s_ws s w)))
+   \/ (exists i, dir (s_fs s) (NTemp w) = Some i /\ dir fs' NTarget = Some i /\ dir fs' (NTemp w) = None /\
+                 inodes fs' i = mk_inode (DNew w (nf w) false) new_mode /\ done_ok wr' /\ w_fd wr' = None)).
+
+Lemma not_done_res : forall wr, w_res wr <> ROk -> ~ done_ok wr.
+Proof. intros wr H [_ E]. contradiction. Qed.
+Lemma not_done_ops : forall wr, w_ops wr <> [] -> ~ done_ok wr.
+Proof. intros wr H [E _]. contradiction. Qed.
+Lemma iff_false : forall A B : Prop, ~ A -> ~ B -> (A <-> B).
+Proof. tauto. Qed.
+
+Lemma res_neq : forall f, match f with FPanic => RPanic | _ => RErr end <> ROk.
+Proof. destruct f; discriminate. Qed.
+
+(* an aborted call (error or panic with early return): only the deferred remove is left *)
+Lemma local_abort : forall s w wr0 fs' r,
+  w_status wr0 = Running -> r <> ROk ->
+  (w_defer wr0 = false -> dir fs' (NTemp w) = None) ->
+  dir fs' NTarget = dir (s_fs s) NTarget ->
+  w_ops (s_ws s w) <> [] ->
+  local_ok s w (w_abort wr0 r) fs'.
+Proof.
+  intros s w wr0 fs' r Hst Hr Hd Ht Hops. unfold local_ok. split; [|split].
+  - intros _. apply WIF; simpl; auto.
+  - simpl. intro E. congruence.
+  - left. split; auto. apply iff_false; [apply not_done_res; simpl; auto|apply not_done_ops; auto].
+Qed.
+
+Lemma step_local : forall s w f, Inv s ->
+  local_ok s w (fst (step (nf w) w f (s_ws s w) (s_fs s))) (snd (step (nf w) w f (s_ws s w) (s_fs s))).
+Proof.
+  intros s w f I.
+  destruct (w_status (s_ws s w)) eqn:Est.
+  2,3: (unfold step; rewrite Est; simpl; unfold local_ok; split; [|split];
+        [ intros Hc; apply (inv_w s I w); exact Hc
+        | apply (inv_ret s I w)
+        | left; split; [reflexivity|tauto] ]).
+  assert (W : winv (s_fs s) w (s_ws s w)) by (apply (inv_w s I w); congruence).
+  remember (s_ws s w) as wr eqn:Ewr.
+  destruct W as [Hsh Hfd Hdf Hres Henc Hdir
+                |i b r Hops Hmid Hfd Hdir Hdata Hdf Hres Henc
+                |i Hmid Hfd Hdir Hdata Hle Hdf Hres
+                |i Hops Hfd Hdir Hdata Hdf Hres
+                |i Hops Hfd Hdir Hdata Hdf Hres
+                |i Hops Hfd Hdir Hino Hdf Hres
+                |Hops Hres Hfd Hdir
+                |Hops Hres Hdir].
+  - (* before the temp file exists *)
+    destruct (shape_core_cases _ Hsh) as [[r [Hops Hr]]|[b [r [Hops Hr]]]]; unfold step; rewrite Est, Hops; simpl.
+    + destruct f; simpl.
+      * unfold local_ok. split; [|split].
+        -- intros _. apply WI0; simpl; auto.
+        -- simpl. congruence.
+        -- left. split; auto. apply iff_false; apply not_done_ops; simpl.
+           ++ intro E. rewrite E in Hr. discriminate.
+           ++ rewrite <- Ewr, Hops. discriminate.
+      * apply local_abort; auto; try discriminate. rewrite <- Ewr, Hops. discriminate.
+      * apply local_abort; auto; try discriminate. rewrite <- Ewr, Hops. discriminate.
+    + destruct f; simpl.
+      * unfold local_ok. split; [|split].
+        -- intros _. eapply WI1 with (i := next_ino (s_fs s)); simpl; eauto; rewrite Nat.eqb_refl; reflexivity.
+        -- simpl. congruence.
+        -- left. split; auto. apply iff_false; apply not_done_ops; simpl; [discriminate|].
+           rewrite <- Ewr, Hops. discriminate.
+      * apply local_abort; auto; try discriminate. rewrite <- Ewr, Hops. discriminate.
+      * apply local_abort; auto; try discriminate. rewrite <- Ewr, Hops. discriminate.
+  - (* created, the remove is being deferred *)
+    unfold step; rewrite Est, Hops; simpl. unfold local_ok. split; [|split].
+    + intros _. eapply WI2 with (i := i); simpl; eauto; try lia. now rewrite Henc.
+    + simpl. congruence.
+    + left. split; auto. apply iff_false; apply not_done_ops; simpl.
+      * intro E. rewrite E in Hmid. discriminate.
+      * rewrite <- Ewr, Hops. discriminate.
+  - (* gathering / encoding into the open temp file *)
+    destruct (mid_ok_cases _ Hmid) as [[r [Hops Hr]]|Hops]; unfold step; rewrite Est, Hops; simpl.
+    + destruct f; simpl.
+      * unfold local_ok. split; [|split].
+        -- intros _. eapply WI2 with (i := i); simpl; eauto.
+        -- simpl. congruence.
+        -- left. split; auto. apply iff_false; apply not_done_ops; simpl.
+           ++ intro E. rewrite E in Hr. discriminate.
+           ++ rewrite <- Ewr, Hops. discriminate.
+      * apply local_abort; auto; try discriminate; [congruence|]. rewrite <- Ewr, Hops. discriminate.
+      * apply local_abort; auto; try discriminate; [congruence|]. rewrite <- Ewr, Hops. discriminate.
+    + rewrite Hfd. destruct (Nat.ltb_spec (w_enc wr) (nf w)) as [Hlt|Hge]; simpl.
+      * assert (Hw : forall t, i_data (inodes (fs_write (s_fs s) i t) i) =
+                               DNew w (if t then w_enc wr else S (w_enc wr)) (false || t)).
+        { intro t. unfold fs_write. rewrite Hdata. simpl. now rewrite Nat.eqb_refl. }
+        destruct f; simpl.
+        -- unfold local_ok. split; [|split].
+           ++ intros _. eapply WI2 with (i := i); simpl; rewrite ?dir_fs_write, ?Hw; simpl; eauto.
+           ++ simpl. congruence.
+           ++ left. rewrite dir_fs_write. split; auto. apply iff_false; apply not_done_ops; simpl.
+              ** rewrite Hops. discriminate.
+              ** rewrite <- Ewr, Hops. discriminate.
+        -- apply local_abort; simpl; auto; try discriminate; [congruence|now rewrite dir_fs_write|].
+           rewrite <- Ewr, Hops. discriminate.
+        -- apply local_abort; simpl; auto; try discriminate; [congruence|now rewrite dir_fs_write|].
+           rewrite <- Ewr, Hops. discriminate.
+      * unfold local_ok. split; [|split].
+        -- intros _. eapply WI3 with (i := i); simpl; eauto. rewrite Hdata. f_equal. lia.
+        -- simpl. congruence.
+        -- left. split; auto. apply iff_false; apply not_done_ops; simpl; [discriminate|].
+           rewrite <- Ewr, Hops. discriminate.
+  - (* close *)
+    unfold step; rewrite Est, Hops, Hfd; simpl. destruct f; simpl.
+    + unfold local_ok. split; [|split].
+      * intros _. eapply WI4 with (i := i); simpl; eauto.
+      * simpl. congruence.
+      * left. split; auto. apply iff_false; apply not_done_ops; simpl; [discriminate|].
+        rewrite <- Ewr, Hops. discriminate.
+    + apply local_abort; simpl; auto; try discriminate; [congruence|]. rewrite <- Ewr, Hops. discriminate.
+    + apply local_abort; simpl; auto; try discriminate; [congruence|]. rewrite <- Ewr, Hops. discriminate.
+  - (* chmod *)
+    unfold step; rewrite Est, Hops; simpl. destruct f; simpl.
+    + rewrite Hdir. simpl. unfold local_ok. split; [|split].
+      * intros _. eapply WI5 with (i := i); simpl; eauto. rewrite Nat.eqb_refl, Hdata. reflexivity.
+      * simpl. congruence.
+      * left. split; auto. apply iff_false; apply not_done_ops; simpl; [discriminate|].
+        rewrite <- Ewr, Hops. discriminate.
+    + apply local_abort; simpl; auto; try discriminate; [congruence|]. rewrite <- Ewr, Hops. discriminate.
+    + apply local_abort; simpl; auto; try discriminate; [congruence|]. rewrite <- Ewr, Hops. discriminate.
+  - (* rename *)
+    unfold step; rewrite Est, Hops; simpl. destruct f; simpl.
+    + rewrite Hdir. simpl. unfold local_ok. split; [|split].
+      * intros _. apply WI6; simpl; auto. now rewrite Nat.eqb_refl.
+      * simpl. congruence.
+      * right. exists i. simpl. rewrite Nat.eqb_refl. repeat split; auto.
+    + apply local_abort; simpl; auto; try discriminate; [congruence|]. rewrite <- Ewr, Hops. discriminate.
+    + apply local_abort; simpl; auto; try discriminate; [congruence|]. rewrite <- Ewr, Hops. discriminate.
+  - (* renamed: deferred remove (the name is gone already), then return *)
+    unfold step; rewrite Est, Hops; simpl. destruct (w_defer wr) eqn:Ed; simpl; unfold local_ok; (split; [|split]).
+    + intros _. apply WI6; simpl; auto. now rewrite Nat.eqb_refl.
+    + simpl. congruence.
+    + left. split; auto. unfold done_ok. simpl. rewrite <- Ewr. tauto.
+    + intros _. apply WI6; simpl; auto.
+    + simpl. auto.
+    + left. split; auto. unfold done_ok. simpl. rewrite <- Ewr. tauto.
+  - (* failed: deferred remove, then return *)
+    unfold step; rewrite Est, Hops; simpl. destruct (w_defer wr) eqn:Ed; simpl; unfold local_ok; (split; [|split]).
+    + intros _. apply WIF; simpl; auto. intros _. now rewrite Nat.eqb_refl.
+    + simpl. congruence.
+    + left. split; auto. unfold done_ok. simpl. rewrite <- Ewr. tauto.
+    + intros _. apply WIF; simpl; auto.
+    + simpl. auto.
+    + left. split; auto. unfold done_ok. simpl. rewrite <- Ewr. tauto.
+Qed.
+
+Lemma inv_event : forall s e, Inv s -> Inv (do_event nf e s).
+Proof.
+  intros s [w f|w torn] I; unfold do_event.
+  - destruct (step (nf w) w f (s_ws s w) (s_fs s)) as [wr' fs'] eqn:E.
+    assert (L := step_local s w f I).
+    assert (FP := step_fsfp (nf w) w f (s_ws s w) (s_fs s)).
+    assert (FD := step_fd (nf w) w f (s_ws s w) (s_fs s)).
+    rewrite E in *. simpl in *. destruct L as [L1 [L2 L3]].
+    apply inv_update; auto.
+    intros i Hi. destruct (FD i Hi) as [|[? ?]]; [auto|right; lia].
+  - destruct (w_status (s_ws s w)) eqn:Est; auto.
+    match goal with |- Inv (mk_sys ?x _) => set (fs' := x) end.
+    assert (Hfs : fs' = s_fs s \/ exists i, w_fd (s_ws s w) = Some i /\ fs' = fs_write (s_fs s) i true).
+    { subst fs'. destruct torn; auto. destruct (w_ops (s_ws s w)) as [|[op e] r]; auto.
+      destruct op; auto. destruct (w_fd (s_ws s w)) as [i|]; auto.
+      destruct (w_enc (s_ws s w) <? nf w); auto. right. exists i. auto. }
+    clearbody fs'. apply inv_update; auto.
+    + destruct Hfs as [->|[i [Hi ->]]]; [apply fsfp_refl|rewrite Hi; apply fsfp_write].
+    + simpl. congruence.
+    + simpl. congruence.
+    + left. split.
+      * destruct Hfs as [->|[i [Hi ->]]]; [reflexivity|now rewrite dir_fs_write].
+      * unfold done_ok. simpl. tauto.
+Qed.
+
+Lemma inv_run : forall evs s, Inv s -> Inv (run nf evs s).
+Proof.
+  induction evs as [|e evs IH]; intros s I; simpl; auto. apply IH. now apply inv_event.
+Qed.
+
+Lemma shape_core_nonempty : forall ops, shape_core ops = true -> ops <> [].
+Proof. intros ops H E. subst. discriminate. Qed.
+
+Lemma inv_init : forall ops, shape_core ops = true -> Inv (init_sys ops old).
+Proof.
+  intros ops H. constructor; simpl.
+  - intros w i E. discriminate.
+  - intros w i E. destruct old; discriminate.
+  - intros w _. apply WI0; simpl; auto.
+  - intros w E. discriminate.
+  - left. simpl. split; auto. split.
+    + intros i E. destruct old; inversion E. unfold old_ino. split; [lia|reflexivity].
+    + intros w. apply not_done_ops. simpl. now apply shape_core_nonempty.
+Qed.
+
+(* ---- reading the invariant --------------------------------------------------------------- *)
+
+Lemma tstate_eqb_refl : forall t, tstate_eqb t t = true.
+Proof. destruct t; simpl; auto; rewrite ?Nat.eqb_refl, ?Z.eqb_refl; reflexivity. Qed.
+
+Definition target_untouched (s : sys) : Prop :=
+  dir (s_fs s) NTarget = dir (init_fs old) NTarget /\
+  (forall i, dir (s_fs s) NTarget = Some i -> i < next_ino (s_fs s) /\ inodes (s_fs s) i = inodes (init_fs old) i).
+
+Lemma untouched_state : forall s, target_untouched s -> target_state nf s = old_state old.
+Proof.
+  intros s [A B]. unfold target_state, classify. destruct (dir (s_fs s) NTarget) as [i|] eqn:E.
+  - destruct (B i eq_refl) as [_ B2]. rewrite B2. simpl in A. destruct old; simpl; [reflexivity|discriminate].
+  - simpl in A. destruct old; simpl; [discriminate|reflexivity].
+Qed.
+
+Lemma complete_state : forall s w i, dir (s_fs s) NTarget = Some i ->
+  inodes (s_fs s) i = mk_inode (DNew w (nf w) false) new_mode -> target_state nf s = TNewFile w new_mode.
+Proof.
+  intros s w i A B. unfold target_state, classify. rewrite A, B. simpl. now rewrite Nat.eqb_refl.
+Qed.
+
+Lemma inv_target_ok : forall s, Inv s -> target_ok old (target_state nf s) = true.
+Proof.
+  intros s I. destruct (inv_target s I) as [[A [B _]]|[w [i [A [_ [C _]]]]]].
+  - rewrite untouched_state by (split; auto). destruct old; simpl; rewrite ?Z.eqb_refl; reflexivity.
+  - rewrite (complete_state s w i) by auto. reflexivity.
+Qed.
+
+Lemma inv_no_temp : forall s w, Inv s -> w_status (s_ws s w) = Returned -> dir (s_fs s) (NTemp w) = None.
+Proof.
+  intros s w I Hr. destruct (inv_ret s I w Hr) as [Ho Hd].
+  assert (W : winv (s_fs s) w (s_ws s w)) by (apply (inv_w s I w); congruence).
+  destruct W as [Hsh _ _ _ _ _|? ? ? Hops _ _ _ _ _ _ _|? Hmid _ _ _ _ _ _|? Hops _ _ _ _ _|? Hops _ _ _ _ _|? Hops _ _ _ _ _| _ _ _ Hdir|_ _ Hdir];
+    try (rewrite Ho in *; discriminate); auto.
+Qed.
+
+(* ---- files that were ever visible under the target name never change again ------------------ *)
+
+Definition frozen (s : sys) (i : nat) : Prop :=
+  i < next_ino (s_fs s) /\ (forall w, w_fd (s_ws s w) <> Some i) /\ (forall w, dir (s_fs s) (NTemp w) <> Some i).
+
+Lemma target_frozen : forall s i, Inv s -> dir (s_fs s) NTarget = Some i -> frozen s i.
+Proof.
+  intros s i I H. split; [|split].
+  - apply target_lt; auto. apply (inv_target s I).
+  - intros w E. apply (inv_fd s I) in E. tauto.
+  - intros w E. apply (inv_tmp s I) in E. tauto.
+Qed.
+
+Lemma frozen_event : forall s e i, frozen s i ->
+  frozen (do_event nf e s) i /\ inodes (s_fs (do_event nf e s)) i = inodes (s_fs s) i.
+Proof.
+  intros s [w f|w torn] i [Hlt [Hfd Htmp]]; unfold do_event.
+  - destruct (step (nf w) w f (s_ws s w) (s_fs s)) as [wr' fs'] eqn:E.
+    assert (FP := step_fsfp (nf w) w f (s_ws s w) (s_fs s)).
+    assert (FD := step_fd (nf w) w f (s_ws s w) (s_fs s)).
+    rewrite E in *. simpl in *. destruct FP as [Fnext Ftag Fino Fnew Fdir Ftmp Ftarget].
+    split; [split; [|split]|]; simpl.
+    + lia.
+    + intros w'. destruct (Nat.eq_dec w' w) as [->|Hn].
+      * rewrite upd_same. intro Hi. destruct (FD i Hi) as [Ho|[Hf _]]; [now apply (Hfd w)|lia].
+      * rewrite upd_other by auto. apply Hfd.
+    + intros w'. destruct (Nat.eq_dec w' w) as [->|Hn].
+      * intro Hi. destruct (Ftmp i Hi) as [Ho|Hf]; [now apply (Htmp w)|lia].
+      * rewrite Fdir by auto. apply Htmp.
+    + apply Fino; auto.
+  - destruct (w_status (s_ws s w)) eqn:Est; try (split; [split|]; auto; fail).
+    match goal with |- context [mk_sys ?x _] => set (fs' := x) end.
+    assert (Hfs : fs' = s_fs s \/ exists j, w_fd (s_ws s w) = Some j /\ fs' = fs_write (s_fs s) j true).
+    { subst fs'. destruct torn; auto. destruct (w_ops (s_ws s w)) as [|[op e] r]; auto.
+      destruct op; auto. destruct (w_fd (s_ws s w)) as [j|]; auto.
+      destruct (w_enc (s_ws s w) <? nf w); auto. right. exists j. auto. }
+    clearbody fs'. simpl.
+    assert (FP : fsfp w (w_fd (s_ws s w)) (s_fs s) fs').
+    { destruct Hfs as [->|[j [Hj ->]]]; [apply fsfp_refl|rewrite Hj; apply fsfp_write]. }
+    destruct FP as [Fnext Ftag Fino Fnew Fdir Ftmp Ftarget].
+    split; [split; [|split]|]; simpl.
+    + lia.
+    + intros w'. destruct (Nat.eq_dec w' w) as [->|Hn].
+      * rewrite upd_same. simpl. apply Hfd.
+      * rewrite upd_other by auto. apply Hfd.
+    + intros w'. destruct Hfs as [->|[j [Hj ->]]]; [apply Htmp|rewrite dir_fs_write; apply Htmp].
+    + apply Fino; auto.
+Qed.
+
+Lemma frozen_run : forall evs s i, frozen s i ->
+  frozen (run nf evs s) i /\ inodes (s_fs (run nf evs s)) i = inodes (s_fs s) i.
+Proof.
+  induction evs as [|e evs IH]; intros s i F; simpl; auto.
+  destruct (frozen_event s e i F) as [F' E']. destruct (IH _ i F') as [F'' E'']. split; auto. congruence.
+Qed.
+
+Lemma target_stays_event : forall s e, dir (s_fs s) NTarget <> None -> dir (s_fs (do_event nf e s)) NTarget <> None.
+Proof.
+  intros s [w f|w torn] H; unfold do_event.
+  - destruct (step (nf w) w f (s_ws s w) (s_fs s)) as [wr' fs'] eqn:E.
+    assert (FP := step_fsfp (nf w) w f (s_ws s w) (s_fs s)). rewrite E in FP. simpl in *.
+    destruct (fp_target _ _ _ _ FP) as [A|[i [_ [A _]]]]; congruence.
+  - destruct (w_status (s_ws s w)); auto. simpl.
+    destruct torn; auto. destruct (w_ops (s_ws s w)) as [|[op e] r]; auto.
+    destruct op; auto. destruct (w_fd (s_ws s w)); auto.
+    destruct (w_enc (s_ws s w) <? nf w); auto. now rewrite dir_fs_write.
+Qed.
+
+Lemma target_stays_run : forall evs s, dir (s_fs s) NTarget <> None -> dir (s_fs (run nf evs s)) NTarget <> None.
+Proof.
+  induction evs as [|e evs IH]; intros s H; simpl; auto. apply IH. now apply target_stays_event.
+Qed.
+
+(* ---- one call and nobody else ------------------------------------------------------------- *)
+
+Definition ev_writer (e : event) : nat := match e with EStep w _ => w | ECrash w _ => w end.
+
+Lemma run_other : forall evs s w, (forall e, In e evs -> ev_writer e <> w) -> s_ws (run nf evs s) w = s_ws s w.
+Proof.
+  induction evs as [|e evs IH]; intros s w H; simpl; auto.
+  rewrite IH by (intros e' He'; apply H; now right).
+  assert (Hn : ev_writer e <> w) by (apply H; now left).
+  destruct e as [w0 f|w0 torn]; simpl in *; unfold do_event.
+  - destruct (step (nf w0) w0 f (s_ws s w0) (s_fs s)). simpl. apply upd_other. auto.
+  - destruct (w_status (s_ws s w0)); auto. simpl. apply upd_other. auto.
+Qed.
+
+Lemma solo_result : forall ops evs w,
+  shape_core ops = true ->
+  (forall e, In e evs -> ev_writer e = w) ->
+  let s := run nf evs (init_sys ops old) in
+  w_status (s_ws s w) = Returned ->
+  spec_after_return old w (w_res (s_ws s w)) (target_state nf s) (temp_state nf s w) = true.
+Proof.
+  intros ops evs w Hsh Hsolo s Hret.
+  assert (I : Inv s) by (apply inv_run; now apply inv_init).
+  assert (Hothers : forall w', w' <> w -> ~ done_ok (s_ws s w')).
+  { intros w' Hn. unfold s. rewrite run_other.
+    - apply not_done_ops. simpl. now apply shape_core_nonempty.
+    - intros e He. rewrite (Hsolo e He). auto. }
+  unfold spec_after_return, temp_state. rewrite (inv_no_temp s w I Hret). simpl.
+  destruct (inv_ret s I w Hret) as [Hops _].
+  destruct (w_res (s_ws s w)) eqn:Er.
+  - (* nil: somebody has renamed, and that can only be this call *)
+    destruct (inv_target s I) as [[_ [_ C]]|[w' [i [A [_ [B D]]]]]].
+    + exfalso. apply (C w). split; auto.
+    + destruct (Nat.eq_dec w' w) as [->|Hn]; [|exfalso; now apply (Hothers w')].
+      rewrite (complete_state s w i) by auto. apply tstate_eqb_refl.
+  - destruct (inv_target s I) as [[A [B _]]|[w' [i [_ [_ [_ D]]]]]].
+    + rewrite untouched_state by (split; auto). apply tstate_eqb_refl.
+    + exfalso. destruct (Nat.eq_dec w' w) as [->|Hn]; [|now apply (Hothers w')].
+      destruct D as [_ D]. congruence.
+  - destruct (inv_target s I) as [[A [B _]]|[w' [i [_ [_ [_ D]]]]]].
+    + rewrite untouched_state by (split; auto). apply tstate_eqb_refl.
+    + exfalso. destruct (Nat.eq_dec w' w) as [->|Hn]; [|now apply (Hothers w')].
+      destruct D as [_ D]. congruence.
+Qed.
+
+(* many calls: a successful call implies the target is the complete file of SOME successful call;
+   while no call has succeeded the target is untouched *)
+Lemma multi_result : forall s, Inv s ->
+  (forall w, w_status (s_ws s w) = Returned -> w_res (s_ws s w) = ROk ->
+     exists w', done_ok (s_ws s w') /\ target_state nf s = TNewFile w' new_mode) /\
+  ((forall w, ~ done_ok (s_ws s w)) -> target_state nf s = old_state old).
+Proof.
+  intros s I. split.
+  - intros w Hr Hres. destruct (inv_ret s I w Hr) as [Hops _].
+    destruct (inv_target s I) as [[_ [_ C]]|[w' [i [A [_ [B D]]]]]].
+    + exfalso. apply (C w). split; auto.
+    + exists w'. split; auto. now apply (complete_state s w' i).
+  - intros Hnone. destruct (inv_target s I) as [[A [B _]]|[w' [i [_ [_ [_ D]]]]]].
+    + apply untouched_state. split; auto.
+    + exfalso. now apply (Hnone w').
+Qed.
+
+End Invariant.
+
+(* ------------------------------------------------------------------------------------------ *)
+(* the clauses of the property, for every shape-safe program                                   *)
+
+Lemma textfile_atomic_lemma : forall ops nf old evs,
+  shape_safe ops = true ->
+  target_ok old (target_state nf (run nf evs (init_sys ops old))) = true.
+Proof.
+  intros ops nf old evs H. apply inv_target_ok. apply inv_run. apply inv_init. now apply shape_safe_core.
+Qed.
+
+Lemma no_temp_left_lemma : forall ops nf old evs w,
+  shape_safe ops = true ->
+  let s := run nf evs (init_sys ops old) in
+  w_status (s_ws s w) = Returned -> temp_state nf s w = TAbsent.
+Proof.
+  intros ops nf old evs w H s Hr. unfold temp_state.
+  rewrite (inv_no_temp nf old s w); auto. apply inv_run. apply inv_init. now apply shape_safe_core.
+Qed.
+
+Lemma reader_never_partial_lemma : forall ops nf old evs1 evs2 i,
+  shape_safe ops = true ->
+  let s1 := run nf evs1 (init_sys ops old) in
+  let s2 := run nf evs2 s1 in
+  dir (s_fs s1) NTarget = Some i ->
+  inodes (s_fs s2) i = inodes (s_fs s1) i /\
+  target_ok old (classify nf (s_fs s2) (Some i)) = true /\
+  dir (s_fs s2) NTarget <> None.
+Proof.
+  intros ops nf old evs1 evs2 i H s1 s2 Hi.
+  assert (I1 : Inv nf old s1) by (apply inv_run; apply inv_init; now apply shape_safe_core).
+  destruct (frozen_run nf evs2 s1 i (target_frozen nf old s1 i I1 Hi)) as [_ E].
+  split; [exact E|]. split.
+  - assert (T := inv_target_ok nf old s1 I1). unfold target_state in T. rewrite Hi in T.
+    unfold classify in *. unfold s2. rewrite E. exact T.
+  - apply target_stays_run. congruence.
+Qed.
+
+Lemma call_result_lemma : forall ops nf old evs w,
+  shape_safe ops = true ->
+  (forall e, In e evs -> ev_writer e = w) ->
+  let s := run nf evs (init_sys ops old) in
+  w_status (s_ws s w) = Returned ->
+  spec_after_return old w (w_res (s_ws s w)) (target_state nf s) (temp_state nf s w) = true.
+Proof. intros. apply solo_result; auto. now apply shape_safe_core. Qed.
+
+Lemma concurrent_calls_lemma : forall ops nf old evs,
+  shape_safe ops = true ->
+  let s := run nf evs (init_sys ops old) in
+  (forall w, w_status (s_ws s w) = Returned -> w_res (s_ws s w) = ROk ->
+     exists w', w_ops (s_ws s w') = [] /\ w_res (s_ws s w') = ROk /\ target_state nf s = TNewFile w' new_mode) /\
+  ((forall w, w_res (s_ws s w) = ROk -> w_ops (s_ws s w) <> []) -> target_state nf s = old_state old).
+Proof.
+  intros ops nf old evs H s.
+  assert (I : Inv nf old s) by (apply inv_run; apply inv_init; now apply shape_safe_core).
+  destruct (multi_result nf old s I) as [A B]. split.
+  - intros w Hr Hres. destruct (A w Hr Hres) as [w' [[D1 D2] T]]. exists w'. auto.
+  - intros Hn. apply B. intros w [D1 D2]. now apply (Hn w).
+Qed.
+
+(* ---- sequential execution is one of the schedules ------------------------------------------- *)
+
+Lemma iter_add : forall {A} (f : A -> A) a b x, iter f (a + b) x = iter f b (iter f a x).
+Proof. induction a; intros; simpl; auto. Qed.
+
+Lemma solo_iter_run : forall n st pk k s,
+  exists evs, (forall e, In e evs -> ev_writer e = 0) /\
+    s_fs (run (fun _ => n) evs s) = snd (iter (solo_step n st pk) k (s_ws s 0, s_fs s)) /\
+    s_ws (run (fun _ => n) evs s) 0 = fst (iter (solo_step n st pk) k (s_ws s 0, s_fs s)).
+Proof.
+  induction k as [|k IH]; intros s.
+  - exists []. simpl. split; [tauto|auto].
+  - set (e := EStep 0 (fault_for st pk (s_ws s 0))).
+    destruct (IH (do_event (fun _ => n) e s)) as [evs [Hs [Hf Hw]]].
+    exists (e :: evs). split.
+    + intros e' [<-|He']; [reflexivity|auto].
+    + assert (E : (s_ws (do_event (fun _ => n) e s) 0, s_fs (do_event (fun _ => n) e s)) =
+                  solo_step n st pk (s_ws s 0, s_fs s)).
+      { unfold e, do_event, solo_step. simpl.
+        destruct (step n 0 (fault_for st pk (s_ws s 0)) (s_ws s 0) (s_fs s)). simpl. now rewrite upd_same. }
+      simpl. rewrite <- E. auto.
+Qed.
+
+Lemma exec_solo_sound_lemma : forall ops n st pk old,
+  shape_safe ops = true ->
+  let p := exec_solo ops n st pk old in
+  w_status (fst p) = Returned ->
+  let '(r, target, temp) := outcome_of n p in
+  spec_after_return old 0 r target temp = true /\ target_ok old target = true.
+Proof.
+  intros ops n st pk old H p Hr.
+  destruct (solo_iter_run n st pk (solo_fuel ops n) (init_sys ops old)) as [evs [Hs [Hf Hw]]].
+  simpl in Hf, Hw. fold (exec_solo ops n st pk old) in Hf, Hw. fold p in Hf, Hw.
+  unfold outcome_of.
+  assert (A := call_result_lemma ops (fun _ => n) old evs 0 H Hs).
+  assert (B := textfile_atomic_lemma ops (fun _ => n) old evs H).
+  simpl in A. unfold target_state, temp_state in *. rewrite Hf, Hw in *. split; auto.
+Qed.
+
+(* ------------------------------------------------------------------------------------------ *)
+(* model = specification for a sequential call: symbolic execution of every shape-safe program   *)
+
+Definition failres (pk : bool) : result := if pk then RPanic else RErr.
+Definition fin (p : writer * fs) (r : result) : Prop := w_status (fst p) = Returned /\ w_res (fst p) = r.
+
+Lemma solo_idle : forall n st pk p, w_status (fst p) <> Running -> solo_step n st pk p = p.
+Proof.
+  intros n st pk [wr s] H. unfold solo_step, step. simpl in *.
+  destruct (w_status wr); try reflexivity. contradiction.
+Qed.
+
+Lemma fin_reach : forall n st pk k K x r,
+  fin (iter (solo_step n st pk) k x) r -> k <= K -> fin (iter (solo_step n st pk) K x) r.
+Proof.
+  intros n st pk k K x r H Hle. replace K with (k + (K - k)) by lia. rewrite iter_add.
+  assert (Hid : forall d y, w_status (fst y) = Returned -> iter (solo_step n st pk) d y = y).
+  { induction d; simpl; intros y Hy; auto. rewrite solo_idle by congruence. auto. }
+  rewrite Hid; auto. apply H.
+Qed.
+
+Lemma gathers_skip : forall n st pk a rest e fd d r s, st <> SGather ->
+  iter (solo_step n st pk) a (mk_writer (repeat opG a ++ rest) e fd d r Running, s) =
+  (mk_writer rest e fd d r Running, s).
+Proof.
+  induction a; intros rest e fd d r s H; simpl; auto.
+  unfold solo_step at 2. unfold fault_for, site_hits. simpl.
+  destruct st; try congruence; simpl; apply IHa; auto.
+Qed.
+
+Definition fs_writes (s : fs) (i k : nat) : fs := iter (fun s => fs_write s i false) k s.
+Lemma dir_fs_writes : forall k s i, dir (fs_writes s i k) = dir s.
+Proof.
+  unfold fs_writes. induction k; intros; simpl; auto. rewrite IHk. apply dir_fs_write.
+Qed.
+
+Lemma encode_loop : forall n st pk k e0 rest ee i d r s,
+  (forall j, st = SEncode j -> j < e0 \/ e0 + k <= j) -> e0 + k <= n ->
+  iter (solo_step n st pk) k (mk_writer ((TEncodeAllToTmp, ee) :: rest) e0 (Some i) d r Running, s) =
+  (mk_writer ((TEncodeAllToTmp, ee) :: rest) (e0 + k) (Some i) d r Running, fs_writes s i k).
+Proof.
+  induction k; intros e0 rest ee i d r s Hst Hle.
+  - simpl. rewrite Nat.add_0_r. reflexivity.
+  - change (iter (solo_step n st pk) (S k) ?x) with (iter (solo_step n st pk) k (solo_step n st pk x)).
+    assert (E : solo_step n st pk (mk_writer ((TEncodeAllToTmp, ee) :: rest) e0 (Some i) d r Running, s) =
+                (mk_writer ((TEncodeAllToTmp, ee) :: rest) (S e0) (Some i) d r Running, fs_write s i false)).
+    { unfold solo_step, step, fault_for, site_hits. simpl.
+      assert (Hlt : e0 <? n = true) by (apply Nat.ltb_lt; lia). rewrite Hlt.
+      destruct st; simpl; try reflexivity.
+      destruct (Nat.eqb_spec e0 k0); [|reflexivity].
+      exfalso. destruct (Hst k0 eq_refl); lia. }
+    rewrite E. rewrite IHk; [|intros j Hj; destruct (Hst j Hj); lia|lia].
+    replace (S e0 + k) with (e0 + S k) by lia. reflexivity.
+Qed.
+
+Definition canon (a : nat) (b : bool) (c : nat) : list (tf_op * bool) :=
+  repeat opG a ++ (TCreateTempInTargetDir, true) :: (TDeferRemoveTmp, b) :: repeat opG c ++ tail4.
+
+Lemma mid_canon : forall r, mid_ok r -> exists c, r = repeat opG c ++ tail4.
+Proof.
+  induction r as [|x r IH]; intro H.
+  - discriminate.
+  - destruct (mid_ok_cases _ H) as [[r' [E Hr']]|E].
+    + inversion E; subst. destruct (IH Hr') as [c Hc]. exists (S c). simpl. now rewrite <- Hc.
+    + exists 0. exact E.
+Qed.
+
+Lemma core_canon : forall ops, shape_core ops = true -> exists a b c, ops = canon a b c.
+Proof.
+  induction ops as [|x ops IH]; intro H.
+  - discriminate.
+  - destruct (shape_core_cases _ H) as [[r [E Hr]]|[b [r [E Hr]]]].
+    + inversion E; subst. destruct (IH Hr) as [a [b [c Hc]]]. exists (S a), b, c. unfold canon. simpl. now rewrite Hc.
+    + destruct (mid_canon r Hr) as [c Hc]. exists 0, b, c. unfold canon. simpl. now rewrite E, Hc.
+Qed.
+
+Lemma existsb_gather_repeat : forall a l, existsb is_gather (repeat opG a ++ l) = (0 <? a) || existsb is_gather l.
+Proof. induction a; intros; simpl; auto. Qed.
+
+Lemma safe_canon : forall ops, shape_safe ops = true -> exists a b c, ops = canon a b c /\ 1 <= a + c.
+Proof.
+  intros ops H. destruct (core_canon ops (shape_safe_core ops H)) as [a [b [c E]]].
+  exists a, b, c. split; auto. subst ops. unfold shape_safe in H. apply andb_true_iff in H. destruct H as [_ H].
+  unfold canon in H. rewrite existsb_gather_repeat in H. simpl in H. rewrite existsb_gather_repeat in H. simpl in H.
+  destruct a, c; simpl in H; try lia; try discriminate.
+Qed.
+
+Lemma canon_fuel : forall a b c n, solo_fuel (canon a b c) n = a + c + n + 8.
+Proof.
+  intros. unfold solo_fuel, canon. rewrite app_length, repeat_length. simpl. rewrite app_length, repeat_length. simpl. lia.
+Qed.
+
+(* up to the first encode step *)
+Lemma prefix_run : forall n st pk a b c old, st <> SGather -> st <> SCreate ->
+  iter (solo_step n st pk) (a + (2 + c)) (init_writer (canon a b c), init_fs old) =
+  (mk_writer tail4 0 (Some 1) true ROk Running, fst (fs_create 0 (init_fs old))).
+Proof.
+  intros n st pk a b c old Hg Hc. unfold init_writer, canon.
+  rewrite iter_add, gathers_skip by auto. rewrite iter_add.
+  assert (E : forall rest, iter (solo_step n st pk) 2
+                (mk_writer ((TCreateTempInTargetDir, true) :: (TDeferRemoveTmp, b) :: rest) 0 None false ROk Running, init_fs old) =
+              (mk_writer rest 0 (Some 1) true ROk Running, fst (fs_create 0 (init_fs old)))).
+  { intro rest. simpl. unfold solo_step, fault_for, site_hits. simpl. destruct st; try congruence; reflexivity. }
+  rewrite E. apply gathers_skip; auto.
+Qed.
+
+Lemma enc_run : forall n st pk i d r s,
+  (forall j, st = SEncode j -> n <= j) ->
+  iter (solo_step n st pk) (n + 1) (mk_writer tail4 0 (Some i) d r Running, s) =
+  (mk_writer (tl tail4) 0 (Some i) d r Running, fs_writes s i n).
+Proof.
+  intros n st pk i d r s H. rewrite iter_add. unfold tail4 at 1.
+  rewrite encode_loop; [|intros j Hj; right; simpl; now apply H|simpl; lia].
+  simpl. unfold solo_step, step. simpl. rewrite Nat.ltb_irrefl. reflexivity.
+Qed.
+
+(* an aborted call: deferred remove (if registered), return *)
+Lemma abort_run : forall n st pk e fd d r s,
+  fin (iter (solo_step n st pk) 2 (mk_writer [] e fd d r Running, s)) r.
+Proof. intros. destruct d; simpl; unfold fin; simpl; auto. Qed.
+
+Lemma tail_run : forall n st pk i s,
+  dir s (NTemp 0) = Some i ->
+  fin (iter (solo_step n st pk) 5 (mk_writer (tl tail4) 0 (Some i) true ROk Running, s))
+      (match st with SClose | SChmod | SRename => failres pk | _ => ROk end).
+Proof.
+  intros n st pk i s H. unfold fin.
+  destruct st; simpl; unfold solo_step, step, fault_for, site_hits; simpl; rewrite ?H; simpl; rewrite ?H; simpl;
+    destruct pk; simpl; rewrite ?H; simpl; auto.
+Qed.
+
+Lemma canon_exec : forall a b c n st pk old, 1 <= a + c ->
+  fin (exec_solo (canon a b c) n st pk old) (if site_reachable n st then failres pk else ROk).
+Proof.
+  intros a b c n st pk old Hac. unfold exec_solo. rewrite canon_fuel.
+  assert (Hdir : forall k, dir (fs_writes (fst (fs_create 0 (init_fs old))) 1 k) (NTemp 0) = Some 1).
+  { intro k. rewrite dir_fs_writes. reflexivity. }
+  assert (Hfull : (forall j, st = SEncode j -> n <= j) -> st <> SGather -> st <> SCreate ->
+            fin (iter (solo_step n st pk) (a + (2 + c) + ((n + 1) + 5)) (init_writer (canon a b c), init_fs old))
+                (match st with SClose | SChmod | SRename => failres pk | _ => ROk end)).
+  { intros He Hg Hc. rewrite iter_add, prefix_run by auto. rewrite iter_add, enc_run by auto. apply tail_run. apply Hdir. }
+  destruct st as [| | |j| | |]; simpl site_reachable; cbv iota.
+  - (* no fault *)
+    eapply fin_reach; [apply Hfull; congruence|lia].
+  - (* create fails *)
+    apply fin_reach with (k := a + 2); [|lia]. unfold init_writer, canon.
+    rewrite iter_add, gathers_skip by congruence.
+    simpl. unfold solo_step, fault_for, site_hits. simpl. destruct pk; unfold fin; simpl; auto.
+  - (* gather fails: the first gather in the program *)
+    destruct a as [|a].
+    + destruct c as [|c]; [lia|]. apply fin_reach with (k := 5); [|lia].
+      unfold init_writer, canon. simpl. unfold solo_step, step, fault_for, site_hits. simpl.
+      destruct pk; unfold fin; simpl; auto.
+    + apply fin_reach with (k := 2); [|lia]. unfold init_writer, canon. simpl.
+      unfold solo_step, step, fault_for, site_hits. simpl. destruct pk; unfold fin; simpl; auto.
+  - (* family j cannot be written *)
+    destruct (Nat.ltb_spec j n) as [Hlt|Hge].
+    + apply fin_reach with (k := a + (2 + c) + (j + (1 + 2))); [|lia].
+      rewrite iter_add, prefix_run by congruence. rewrite iter_add. unfold tail4 at 1.
+      rewrite encode_loop; [|intros j' Hj'; inversion Hj'; subst; simpl; lia|simpl; lia].
+      rewrite iter_add. simpl (0 + j).
+      assert (E : solo_step n (SEncode j) pk
+                    (mk_writer ((TEncodeAllToTmp, true) :: tl tail4) j (Some 1) true ROk Running,
+                     fs_writes (fst (fs_create 0 (init_fs old))) 1 j) =
+                  (mk_writer [] 0 (Some 1) true (failres pk) Running,
+                   fs_write (fs_writes (fst (fs_create 0 (init_fs old))) 1 j) 1 true)).
+      { unfold solo_step, step, fault_for, site_hits. simpl.
+        assert (Hl : j <? n = true) by (now apply Nat.ltb_lt). rewrite Hl, Nat.eqb_refl.
+        destruct pk; reflexivity. }
+      simpl (iter _ 1 _). simpl (tl tail4) in E. unfold tail4. rewrite E. apply abort_run.
+    + eapply fin_reach; [apply Hfull; try congruence|lia]. intros j' Hj'. inversion Hj'. subst. lia.
+  - eapply fin_reach; [apply Hfull; congruence|lia].
+  - eapply fin_reach; [apply Hfull; congruence|lia].
+  - eapply fin_reach; [apply Hfull; congruence|lia].
+Qed.
+
+Lemma tstate_eqb_eq : forall a b, tstate_eqb a b = true -> a = b.
+Proof.
+  destruct a, b; simpl; intro H; try discriminate; auto.
+  - apply Z.eqb_eq in H. now subst.
+  - apply andb_true_iff in H. destruct H as [H1 H2]. apply Nat.eqb_eq in H1. apply Z.eqb_eq in H2. now subst.
+Qed.
+
+Lemma exec_matches_spec_lemma : forall ops n st pk old,
+  shape_safe ops = true ->
+  w_status (fst (exec_solo ops n st pk old)) = Returned /\
+  outcome_of n (exec_solo ops n st pk old) = spec_outcome old n st pk.
+Proof.
+  intros ops n st pk old H.
+  destruct (safe_canon ops H) as [a [b [c [E Hac]]]].
+  destruct (canon_exec a b c n st pk old Hac) as [Hs Hr]. rewrite <- E in Hs, Hr.
+  split; auto.
+  assert (S := exec_solo_sound_lemma ops n st pk old H Hs). unfold outcome_of in *.
+  destruct S as [S _]. rewrite Hr in *. unfold spec_outcome, spec_after_return in *.
+  destruct (site_reachable n st).
+  - apply andb_true_iff in S. destruct S as [S1 S2]. apply tstate_eqb_eq in S1.
+    assert (S3 : classify (fun _ => n) (snd (exec_solo ops n st pk old)) (dir (snd (exec_solo ops n st pk old)) NTarget) = old_state old)
+      by (destruct pk; simpl in S2; now apply tstate_eqb_eq).
+    rewrite S1, S3. destruct pk; reflexivity.
+  - apply andb_true_iff in S. destruct S as [S1 S2]. apply tstate_eqb_eq in S1. apply tstate_eqb_eq in S2.
+    now rewrite S1, S2.
+Qed.
+
+(* explicit readings of call_result_lemma *)
+Lemma success_means_new_0644_lemma : forall ops nf old evs w,
+  shape_safe ops = true ->
+  (forall e, In e evs -> ev_writer e = w) ->
+  let s := run nf evs (init_sys ops old) in
+  w_status (s_ws s w) = Returned -> w_res (s_ws s w) = ROk ->
+  target_state nf s = TNewFile w new_mode.
+Proof.
+  intros ops nf old evs w H Hs s Hr Hres.
+  assert (A := call_result_lemma ops nf old evs w H Hs Hr). fold s in A. rewrite Hres in A.
+  unfold spec_after_return in A. apply andb_true_iff in A. destruct A as [_ A]. now apply tstate_eqb_eq.
+Qed.
+
+Lemma error_means_unchanged_lemma : forall ops nf old evs w,
+  shape_safe ops = true ->
+  (forall e, In e evs -> ev_writer e = w) ->
+  let s := run nf evs (init_sys ops old) in
+  w_status (s_ws s w) = Returned -> w_res (s_ws s w) <> ROk ->
+  target_state nf s = old_state old.
+Proof.
+  intros ops nf old evs w H Hs s Hr Hres.
+  assert (A := call_result_lemma ops nf old evs w H Hs Hr). fold s in A.
+  unfold spec_after_return in A. apply andb_true_iff in A. destruct A as [_ A].
+  destruct (w_res (s_ws s w)); [contradiction| |]; now apply tstate_eqb_eq.
+Qed.
+
+(* ---- the interpreter of the brief, with a crash point ----------------------------------------- *)
+
+Lemma Inv_ext : forall nf old s s', Inv nf old s ->
+  s_fs s' = s_fs s -> (forall w, s_ws s' w = s_ws s w) -> Inv nf old s'.
+Proof.
+  intros nf old s s' [Ifd Itmp Iw Iret Itg] Ef Ew. constructor.
+  - intros w i. rewrite Ef, Ew. apply Ifd.
+  - intros w i. rewrite Ef. apply Itmp.
+  - intros w. rewrite Ef, Ew. apply Iw.
+  - intros w. rewrite Ew. apply Iret.
+  - unfold target_inv in *. rewrite Ef.
+    destruct Itg as [[A [B C]]|[w [i [A [B [C D]]]]]].
+    + left. split; auto. split; auto. intro w. rewrite Ew. apply C.
+    + right. exists w, i. rewrite Ew. auto.
+Qed.
+
+Lemma exec_atomic_lemma : forall ops n faults crash old,
+  shape_safe ops = true ->
+  target_ok old (target_state (fun _ => n) (exec ops n faults crash old)) = true.
+Proof.
+  intros ops n [st pk] crash old H.
+  assert (Hk : forall k, Inv (fun _ => n) old
+            (mk_sys (snd (iter (solo_step n st pk) k (init_writer ops, init_fs old)))
+                    (upd_w (fun _ => init_writer ops) 0 (fst (iter (solo_step n st pk) k (init_writer ops, init_fs old)))))).
+  { intro k. destruct (solo_iter_run n st pk k (init_sys ops old)) as [evs [Hs [Hf Hw]]]. simpl in Hf, Hw.
+    apply Inv_ext with (s := run (fun _ => n) evs (init_sys ops old)).
+    - apply inv_run. apply inv_init. now apply shape_safe_core.
+    - simpl. now rewrite Hf.
+    - intro w. simpl. destruct (Nat.eq_dec w 0) as [->|Hn].
+      + rewrite upd_same. now rewrite Hw.
+      + rewrite upd_other by auto. rewrite run_other; [reflexivity|].
+        intros e He. rewrite (Hs e He). auto. }
+  unfold exec. simpl fst. simpl snd. destruct crash as [[k torn]|].
+  - apply inv_target_ok. apply inv_event. apply Hk.
+  - apply inv_target_ok. apply Hk.
+Qed.
+
+(* ---- the program generated from the Go source ------------------------------------------------ *)
+
+Lemma program_shape_safe_lemma : shape_safe write_to_textfile_ops = true.
+Proof. vm_compute. reflexivity. Qed.
+
+(* a crash may leave a (partial) temp file: the process is killed in the middle of the second family *)
+Lemma temp_may_remain_after_crash_lemma :
+  exists evs, let s := run (fun _ => 2) evs (init_sys write_to_textfile_ops (Some 420%Z)) in
+    w_status (s_ws s 0) = Crashed /\ temp_state (fun _ => 2) s 0 = TPartial /\
+    target_state (fun _ => 2) s = TOldFile 420%Z.
+Proof.
+  exists [EStep 0 FNone; EStep 0 FNone; EStep 0 FNone; EStep 0 FNone; EStep 0 FNone; ECrash 0 true].
+  vm_compute. auto.
+Qed.
